@@ -501,6 +501,7 @@ func (node *Node) Run(ctx context.Context) error {
 		node.stopping = false
 		node.lock.Unlock()
 		node.state.Reset()
+		node.txTracker.Start() // stopped above, the next connection needs it again
 	}
 
 	node.lock.Lock()
